@@ -1,5 +1,5 @@
 """C06  Pool broadcast runs the task once per index and publishes its effects."""
-from lib.facts import norm, place_fields, direct_place, const_int, nophi
+from lib.facts import norm, place_fields, direct_place, const_int, nophi, origins
 from lib import tables
 
 EXPLANATION = (
@@ -563,7 +563,68 @@ def r06_7(ctx, prog, crate):
               "unsafe Send/Sync impls in the pool module: %s" % unsafe, "src/util/thread/pool.rs", detail=unsafe)
 
 
+def r06_8(ctx, prog, crate):
+    """The type-erased hop hands the index through unchanged, once: Task::run(thread_id) makes exactly one call - the
+    function pointer stored in its own task block, with that block and thread_id - and the stored pointer is the
+    monomorphic trampoline that makes exactly one call of the block's closure with the index it was given."""
+    run = prog.body(POOL + "Task::run", crate)
+    new = prog.body(POOL + "TaskShared::new", crate)
+    if not ctx.anchor("R06.8", "Task::run, TaskShared::new", sum(1 for x in (run, new) if x), 2):
+        return
+    ctx.saw(run)
+    ctx.saw(new)
+    ind = [c for c in run.live_calls() if c.decl is None]
+    other = [c for c in run.live_calls() if c.decl is not None and c.callee not in PTR_PRESERVING]
+    if ctx.check(len(ind) == 1 and not other and not run.loops, "R06.8", ["Task::run", "one-indirect-call"],
+                 "Task::run makes %d indirect calls and calls %s; expected exactly one call, through the stored function pointer" % (len(ind), sorted(c.callee for c in other)), run.where(0)):
+        c = ind[0]
+        ctx.check(all(run.dominates(c.bb, r) for r in run.returns),
+                  "R06.8", ["Task::run", "call-on-every-path"], "Task::run can return without calling the task", c.line())
+        f = direct_place(run, c.func)
+        srcs = {z.label() for z in run.prov.op_src(c.func) if not (z.kind == "call" and z.a in PTR_PRESERVING)}
+        ok = f is not None and f[0] == "place" and f[2] and f[2][-1] == "task_fn_ptr" and srcs and all(x.startswith("param:self") for x in srcs)
+        ctx.check(ok, "R06.8", ["Task::run", "calls-its-own-blocks-fn-pointer"],
+                  "the function Task::run calls is %s (from %s), expected the task_fn_ptr of self's task block" % (f, sorted(srcs)), c.line())
+        a0 = {z.label() for z in run.prov.op_src(c.args[0]) if not (z.kind == "call" and z.a in PTR_PRESERVING)} if len(c.args) == 2 else set()
+        d1 = direct_place(run, c.args[1]) if len(c.args) == 2 else None
+        ctx.check(len(c.args) == 2 and a0 and all(x.startswith("param:self") for x in a0) and d1 == ("place", 2, ()), "R06.8", ["Task::run", "passes-own-block-and-thread-id"],
+                  "Task::run calls the task with (%s, %s); expected (its own task block, thread_id unchanged)" % (sorted(a0), d1), c.line())
+    # the stored pointer
+    aggs = [(bi, s) for bi, si, s in new.stmts() if s["k"] == "assign" and s["rv"]["k"] == "agg" and s["rv"]["ak"] == "adt" and norm(s["rv"]["adt"]).endswith("TaskShared")]
+    if not ctx.check(len(aggs) == 1, "R06.8", ["TaskShared::new", "aggregate"], "aggregates: %d" % len(aggs), new.where(0)):
+        return
+    rv = aggs[0][1]["rv"]
+    fld = dict(zip(rv["fields"], rv["ops"]))
+    tf = direct_place(new, fld["task_fn"])
+    ctx.check(tf == ("place", 2, ()), "R06.8", ["TaskShared::new", "stores-the-given-task"], "task_fn is initialised from %s, expected the task_fn parameter" % (tf,), new.where(aggs[0][0]))
+    tramp = None
+    for o in origins(new, fld["task_fn_ptr"]):
+        if o[0] == "const":
+            nm = norm(o[1]["c"].get("fn") or o[1]["c"]["d"])
+            cand = [b for b in prog.lib_bodies(crate) if b.kind == "Fn" and norm(b.path) == nm or b.path == nm]
+            tramp = cand[0] if len(cand) == 1 else None
+    if not ctx.check(tramp is not None, "R06.8", ["TaskShared::new", "trampoline"], "cannot resolve the function stored in task_fn_ptr", new.where(aggs[0][0])):
+        return
+    ctx.saw(tramp)
+    fn = [c for c in tramp.live_calls() if c.is_fn_trait_call]
+    other = [c for c in tramp.live_calls() if not c.is_fn_trait_call and c.callee not in PTR_PRESERVING]
+    if ctx.check(len(fn) == 1 and not other and not tramp.loops and all(tramp.dominates(fn[0].bb, r) for r in tramp.returns), "R06.8", ["trampoline", "one-call-of-the-task"],
+                 "`%s` calls the task closure %d times (other calls: %s); expected exactly once on every path" % (tramp.path, len(fn), sorted(c.callee for c in other)), tramp.where(0)):
+        c = fn[0]
+        f = direct_place(tramp, c.args[0])
+        srcs = {z.label() for z in tramp.prov.op_src(c.args[0]) if not (z.kind == "call" and z.a in PTR_PRESERVING)}
+        ctx.check(f is not None and f[0] == "place" and f[2] and f[2][-1] == "task_fn" and srcs == {"param:" + tramp.param_name(1)}, "R06.8", ["trampoline", "calls-the-blocks-closure"],
+                  "the trampoline calls %s (from %s), expected the task_fn stored in the block it was given" % (f, sorted(srcs)), c.line())
+        t = direct_place(tramp, c.args[1])
+        el = None
+        if t and t[0] == "rvalue" and t[1]["k"] == "agg" and t[1]["ak"] == "tuple" and len(t[1]["ops"]) == 1:
+            el = direct_place(tramp, t[1]["ops"][0])
+        ctx.check(el == ("place", 2, ()), "R06.8", ["trampoline", "passes-the-index-unchanged"],
+                  "the trampoline calls the task with %s, expected the thread index it was given" % (el,), c.line())
+
+
 def run(ctx, prog, crate):
+    r06_8(ctx, prog, crate)
     r06_1(ctx, prog, crate)
     r06_2(ctx, prog, crate)
     r06_3(ctx, prog, crate)
